@@ -70,6 +70,11 @@ def history_actions(tier):
         "read|bad:pseudo-X",
         "read|bad:pseudo-RX",
         "read|bad:pseudo-XR",
+        "read|v2codes:D+",
+        "read|bad:v2codes:D+ no end",
+        "read|v2codes:NH4+",
+        "write-calc|v3:isoA",
+        "write-calc|v3:isoB",
         # a graph object the caller keeps: serializing it, canonicalizing it, serializing it again
         "serialize-retained|benzene-13C-rad",
         "canon-retained|benzene-13C-rad",
@@ -111,6 +116,7 @@ def _expand(job):
     """Replay `hist` from the cold state once per action, apply the action, compare, fingerprint."""
     tier, hist, refs = job[:3]
     shortcut = job[3] if len(job) > 3 else True
+    subset = job[4] if len(job) > 4 else None
     global _ACTIONS
     if _ACTIONS is None or _ACTIONS[0] != tier:
         _ACTIONS = (tier, history_actions(tier))
@@ -119,6 +125,8 @@ def _expand(job):
     fresh = False
     fp_here = None
     for ai, (name, fn) in enumerate(acts):
+        if subset is not None and ai not in subset:
+            continue
         if not fresh:
             modstate.reset("cold")
             for h in hist:
@@ -137,35 +145,52 @@ def _expand(job):
 def history_engine(rep, tier):
     acts = history_actions(tier)
     refs = dict(r for _, r in pmap(_reference_result, [n for n, _ in acts]))
-    modstate.reset("cold")
-    seen = {modstate.fingerprint(): ()}
-    frontier = [()]
-    transitions = 0
-    depth = 0
+    # Two action menus are explored to a fixpoint separately (the dimensions are independent: the retained-object actions
+    # do not touch the ANTLR caches and vice versa); sequences mixing both menus are covered by the unmerged tree below.
+    retained = [i for i, (n, _) in enumerate(acts) if "retained" in n]
+    core_parse = [i for i, (n, _) in enumerate(acts) if n.startswith("parse|")][:3]
+    menus = {"library-state menu": [i for i in range(len(acts)) if i not in retained],
+             "retained-object menu": sorted(set(retained + core_parse + [i for i, (n, _) in enumerate(acts) if n.startswith(("tucan|", "canon|"))]))}
     max_states = 400 if tier == "quick" else 6000
-    capped = False
-    while frontier and not capped:
-        depth += 1
-        nxt = []
-        for job, res in pmap(_expand, [(tier, h, refs) for h in frontier]):
-            h = job[1]
-            for ai, ok, fp, r in res:
-                transitions += 1
-                if not ok:
-                    rep.violation(f"C14|history|{acts[ai][0].split('|')[0]}", {
-                        "kind": "c14-history", "history": [acts[x][0] for x in h], "action": acts[ai][0], "n": len(h),
-                        "summary": f"after history {[acts[x][0] for x in h]} the call {acts[ai][0]!r} gives a different result than in a fresh process"})
-                if fp not in seen:
-                    seen[fp] = h + (ai,)
-                    nxt.append(h + (ai,))
-        frontier = sorted(nxt)
-        if len(seen) > max_states:
-            capped = True
-    rep.add(states=len(seen), transitions=transitions, traces_validated_against_impl=transitions,
-            history_states=len(seen), history_transitions=transitions, history_depth=depth, history_actions=len(acts),
-            history_fixpoint_reached=not capped)
-    if capped:
-        rep.cov["exhaustive"] = False
+    total_states = 0
+    transitions = 0
+    per_menu = {}
+    longest = ()
+    for mname, subset in menus.items():
+        modstate.reset("cold")
+        seen = {modstate.fingerprint(): ()}
+        frontier = [()]
+        depth = 0
+        capped = False
+        mtrans = 0
+        while frontier and not capped:
+            depth += 1
+            nxt = []
+            for job, res in pmap(_expand, [(tier, h, refs, True, subset) for h in frontier]):
+                h = job[1]
+                for ai, ok, fp, r in res:
+                    mtrans += 1
+                    if not ok:
+                        rep.violation(f"C14|history|{acts[ai][0].split('|')[0]}", {
+                            "kind": "c14-history", "history": [acts[x][0] for x in h], "action": acts[ai][0], "n": len(h),
+                            "summary": f"after history {[acts[x][0] for x in h]} the call {acts[ai][0]!r} gives a different result than in a fresh process"})
+                    if fp not in seen:
+                        seen[fp] = h + (ai,)
+                        nxt.append(h + (ai,))
+            frontier = sorted(nxt)
+            if len(seen) > max_states:
+                capped = True
+        per_menu[mname] = {"actions": len(subset), "states": len(seen), "transitions": mtrans, "depth": depth, "fixpoint_reached": not capped}
+        total_states += len(seen)
+        transitions += mtrans
+        if capped:
+            rep.cov["exhaustive"] = False
+        cand = max(seen.values(), key=len)
+        if len(cand) > len(longest):
+            longest = cand
+    seen = {None: longest}
+    rep.add(states=total_states, transitions=transitions, traces_validated_against_impl=transitions,
+            history_states=total_states, history_transitions=transitions, history_actions=len(acts), history_menus=per_menu)
     # unmerged tree (validates the state canonicalisation): all histories up to depth 2 (quick) / 3 (thorough)
     from itertools import product
 
@@ -430,10 +455,16 @@ def schedule_engine(rep, tier):
 
 
 def run(tier):
+    import time
+
     rep = Report("C14", tier)
+    t0 = time.time()
     hash_seed_engine(rep, tier)
+    t1 = time.time()
     history_engine(rep, tier)
+    t2 = time.time()
     schedule_engine(rep, tier)
+    rep.add(engine_wall_s={"hash_seeds": round(t1 - t0, 1), "histories": round(t2 - t1, 1), "schedules": round(time.time() - t2, 1)})
     rep.add(rule="(1) the whole workload in a fresh interpreter per PYTHONHASHSEED; (2) BFS over call histories to a fixpoint of the "
                  "canonical module state (lexer DFA cache shape, nextTokenWithinRule memos, global RNG state), every transition's "
                  "result compared with a fresh process; (3) all thread schedules with <= bound preemptions at line granularity over "
